@@ -8,7 +8,7 @@ extern "C" {
 }
 using namespace vf;
 
-struct Item { uint64_t N; int op; int mtype; CpuCfg cfg; bool full_strides; };
+struct Item { uint64_t N; int op; int mtype; CpuCfg cfg; bool full_strides; bool sparse = false; };
 
 static void run_item(Ctx& ctx, const Item& it) {
   const VecOp& op = VECOPS[it.op];
@@ -26,6 +26,7 @@ static void run_item(Ctx& ctx, const Item& it) {
   ExecResult r;
   // limb counts: the complete box {0..3}^3 plus every combination of the larger counts {5, 9}
   std::vector<uint64_t> SZ = {0, 1, 2, 3, 5, 9}, SZ0 = {0};
+  if (it.sparse) SZ = {0, 1, 3};  // large-N layer of the quick tier
   for (uint64_t rs : SZ)
     for (uint64_t as : (op.nin >= 1 ? SZ : SZ0))
       for (uint64_t bs : (op.nin >= 2 ? SZ : SZ0))
@@ -137,6 +138,7 @@ int main(int argc, char** argv) {
       }
   };
   for (uint64_t N : Ns) add_items(N, true);
+  if (!args.thorough()) for (uint64_t N : {2048, 16384}) { size_t k0 = items.size(); add_items(N, false); for (size_t k = k0; k < items.size(); ++k) items[k].sparse = true; }
   if (args.thorough()) {
     for (uint64_t N : NM) add_items(N, true);
     for (uint64_t N : NL) add_items(N, false);
@@ -151,7 +153,7 @@ int main(int argc, char** argv) {
   Json extra = Json::obj();
   Json ns = Json::arr();
   for (uint64_t N : Ns) ns.push(N);
-  if (args.thorough()) { for (uint64_t N : NM) ns.push(N); for (uint64_t N : NL) ns.push(N); }
+  if (args.thorough()) { for (uint64_t N : NM) ns.push(N); for (uint64_t N : NL) ns.push(N); } else { ns.push(2048); ns.push(16384); }
   extra.set("ring_dimensions", ns).set("ops", NVECOPS).set("cfgs", (int)cf.size());
   return ctx.finish("exploration",
                     "nested product op x N x module type x cfg x (res_size,a_size,b_size) in {0,1,2,3,5,9}^3 x strides {N,N+1,N+3,2N+5} per small operand x p set; "
